@@ -4,7 +4,7 @@ import glob, json, os, re, subprocess, threading, time
 REPO = os.environ.get("VERIF_REPO", "/repo")
 ROOT = os.path.dirname(os.path.dirname(os.path.abspath(__file__)))
 BUILD = os.path.join(ROOT, ".build")
-TARGET = os.path.join(BUILD, "kani")
+TARGET = os.environ.get("VERIF_KANI_TARGET") or os.path.join(BUILD, "kani")
 PB_TARGET = os.path.join(BUILD, "kani-pb")
 KANI_FLAGS = ["-Z", "function-contracts", "-Z", "stubbing", "-Z", "unstable-options"]
 
@@ -213,14 +213,39 @@ def resolve_unwindsets(harnesses):
             continue
         f = max(cands, key=os.path.getmtime)
         p = subprocess.run(["cbmc", "--show-loops", f], capture_output=True, text=True)
-        loops = re.findall(r"^Loop (\S+):\n\s+file .*? function (.*)$", p.stdout, re.M)
+        loops = re.findall(r"^Loop (\S+):\n\s+file (\S+)(?: line (\d+))?.*? function (.*)$", p.stdout, re.M)
         for pat, n in h["unwindset"]:
-            hit = [lid for lid, fn in loops if pat in fn or pat in lid]
+            # `fnpat~text`: only loops of a matching function whose source line contains `text`
+            pat, _, text = pat.partition("~")
+            hit = []
+            for lid, lfile, lline, fn in loops:
+                if not (pat in fn or pat in lid):
+                    continue
+                if text:
+                    if not lline or text not in _src_line(lfile, int(lline)):
+                        continue
+                hit.append(lid)
             if not hit:
                 notes.append(f"{h['name']}: unwindset pattern {pat!r} matched no loop")
             for lid in hit:
                 out[lid] = max(int(n), int(out.get(lid, 0)))
     return out, notes
+
+
+_SRC_CACHE = {}
+
+
+def _src_line(path, n):
+    if not os.path.isabs(path):
+        path = os.path.join(REPO, path)
+    if path not in _SRC_CACHE:
+        try:
+            with open(path) as f:
+                _SRC_CACHE[path] = f.read().split("\n")
+        except OSError:
+            _SRC_CACHE[path] = []
+    L = _SRC_CACHE[path]
+    return L[n - 1] if 0 < n <= len(L) else ""
 
 
 def classify(h, r):
